@@ -19,6 +19,7 @@ EXPLANATION = (
     "C15.N5: in the JSON form the envelope's disclosure list is replaced by the selected list on every path (shared with C10.F3). "
     "Equality of the narrowed presentation with the direct one is a relation between two runs and is not decided."
     " C15.N3 counts `?`-propagated errors like constructed ones. C15.N4: the list walkers pair selection and claims in lock step over the full element sequences (rule shared with C06.H2 / C01.f)."
+    " C15.N7: the JSON envelope a holder writes can be read back by the parser (a member left out on some path must be optional for the reader; rule shared with C10.F4): narrowing feeds the library's own output, possibly with an empty disclosure list, into a new holder."
     " C15.N6: a branch condition in a selection walker may depend on holder / engine state only through keyed lookups of payload digests in the disclosure maps — not on a cached flag, a count or a scan over the disclosures that happen to be available, which differ between the issued SD-JWT and a narrowed presentation."
 )
 ASSUMPTIONS = [
@@ -92,6 +93,9 @@ def run(ctx):
     # path, by the selected list (what the holder was constructed with must not shine through) — rule shared with C10.F3
     import c10
     c10.f3(common.RelabelCtx(ctx, "C15.N5", keep=("json-disclosures",)), fx)
+    # N7: narrowing reads back what this library wrote: the JSON envelope a holder emits (possibly with an empty disclosure list, which
+    # narrowing down to nothing produces) must be an envelope the parser accepts -- rule shared with C10.F4 / C01.h
+    c10.f4(common.RelabelCtx(ctx, "C15.N7"), fx, "C15.N7")
 
 
 def n6(ctx, fx, H):
